@@ -19,7 +19,7 @@ LEVEL = "exploration"
 RULE = (
     "Hypothesis-generated cases: commit_type spelling drawn from {None, 'full', 'links_only', 'none' in lower/upper/mixed "
     "case, 'FULL', 'LINK_ONLY', 'NO_COMMIT', 'link_only', 'no_commit'}, value in {str, bytes, None, picklable}, operation list "
-    "over {keep, change code + keep, load, reopen in a fresh process, rewrite the blob metadata to the legacy reference of the "
+    "over {keep, change code + keep (fresh process, or the same process and store object, also changing back to an earlier version), load, reopen in a fresh process, rewrite the blob metadata to the legacy reference of the "
     "same kind (dbfs.string / dbfs.bytes / dbfs.pickle), second path kept with the same function}. After every step the tree "
     "under the fake DBFS root is compared with the commit type: 'full' = byte-identical copy at <data>/<path> + redirect record "
     "<data>/_dds_meta/<path> naming the key; 'links only' = record only; 'none' = nothing under <data>; keep always returns the "
@@ -82,7 +82,8 @@ def case_strategy():
         st.just({"k": "pickle", "v": None}),
         st.tuples(st.integers(-3, 3), st.text(max_size=3)).map(lambda t: {"k": "pickle", "v": enc(t)}),
     )
-    op = st.sampled_from(["keep", "rekeep", "load", "reopen", "legacy", "keep_both", "keep", "new_view", "faulty_keep", "same_once", "same_twice"])
+    op = st.sampled_from(["keep", "rekeep", "load", "reopen", "legacy", "keep_both", "keep", "new_view", "faulty_keep", "same_once", "same_twice",
+                          "rekeep_live", "revert_live", "rekeep_live", "revert_live"])
 
     @st.composite
     def gen(draw):
@@ -185,6 +186,7 @@ def check_case(case, ev=None, scratch=None):
         committed = {}     # path -> (key, value) per the model (what the last keep of the path returned)
         dbroot = os.path.join(store_dir, "dbfsroot")
         stats = {"rekeep": 0, "legacy_read": 0, "legacy": False}
+        prev_ver = []
 
         def check_tree(when):
             data = tree(os.path.join(dbroot, view[0]))
@@ -258,6 +260,17 @@ def check_case(case, ev=None, scratch=None):
                 start()
                 do_keep("f", ["/out/v"], when)
                 stats["rekeep"] += 1
+            elif op in ("rekeep_live", "revert_live"):
+                # the code changes (or changes back) and is kept again by the same process, on the same store object
+                prev_ver.append(ver)
+                ver = (ver + 1) % 3 if op == "rekeep_live" or len(prev_ver) < 2 else prev_ver[-2]
+                mt[0] += 10
+                w.call("write_files", files={"pk/m0.py": MODULE_SRC.format(ver=ver)}, reload=False, mtime=mt[0])
+                w.call("call", module="vf.harness.session", func="_reload_present", args=[["pk", "pk.m0"]])
+                do_keep("f", ["/out/v"], when)
+                do_load(when)
+                stats["rekeep"] += 1
+                stats["live"] = stats.get("live", 0) + 1
             elif op == "load":
                 do_load(when)
                 if stats["legacy"]:
@@ -313,7 +326,7 @@ def check_case(case, ev=None, scratch=None):
             ev.case(case if case["values"][0]["k"] != "str" or len(case["values"][0]["v"]) < 200 else dict(case, values="<long strings>"),
                     stats["rekeep"] >= 1 or stats["legacy_read"] >= 1,
                     features=["commit:" + case["commit"], "spelling:" + repr(case["spelling"]), "type:" + case["values"][0]["k"]]
-                    + (["rekeep"] if stats["rekeep"] else []) + (["legacy-read"] if stats["legacy_read"] else []), key=case)
+                    + (["rekeep"] if stats["rekeep"] else []) + (["rekeep-same-store-object"] if stats.get("live") else []) + (["legacy-read"] if stats["legacy_read"] else []), key=case)
     finally:
         if w is not None:
             w.close()
